@@ -193,7 +193,7 @@ func (c14pcap) Gen(rng *rand.Rand, tier string) []Case {
 	var out []Case
 	nSmall, nBig := 100, 30
 	if tier == "thorough" {
-		nSmall, nBig = 600, 150
+		nSmall, nBig = 1500, 400
 	}
 	for i := 0; i < nSmall; i++ {
 		maxBytes := 4096
